@@ -475,6 +475,7 @@ func genC15(seed uint64, part string) *Scenario {
 		sc.Clients = [][]Op{ops}
 	}
 	sc.FinalRefr = 4
+	sc.NilDbg = common.NewRng(common.H(seed, "nildbg")).Chance(1, 6)
 	return sc
 }
 
